@@ -54,6 +54,7 @@ class Tracer:
         self.gids = {}            # id(graph object) -> number; model.graph = 0
         self.pre_meta = {}        # id(new node) -> metadata_props the replacement function gave it
         self.fn_tokens_done = set()
+        self.tops = [0]           # the serialized graph objects: model graph and functions
 
     # ---- tokens
     def token(self, v):
@@ -189,6 +190,7 @@ class Tracer:
         self.gids.setdefault(id(model.graph), 0)
         # (a function created during the sweep appears in the functions table only)
         tops = [model.graph] + [f for key, f in model.functions.items() if key in known_functions]
+        self.tops = sorted({0} | {self.gid(t) for t in tops[1:]})
         for t in tops:
             for g in self._graphs_of(t):
                 k = self.gid(g)
@@ -319,6 +321,7 @@ class Tracer:
                 rec["gfinal"] = tracer.graph_lit(graph_or_function)
                 try:
                     rec["sfinal"] = tracer.state_lit(model, graph_or_function, rec["known_functions"])
+                    rec["tops"] = list(tracer.tops)
                 except Exception as e:
                     rec["unmodelled"].append(f"tracer error in the state snapshot: {type(e).__name__}: {e}")
                 rec["top"] = None
